@@ -81,6 +81,13 @@ def rule_univ(ctx):
     allowed = {"CancelledError", "NotImplementedError", "StopAsyncIteration"}
     ctx.ob("C13.UNIV", wr, "pass-through classes are limited to CancelledError / NotImplementedError / StopAsyncIteration", set(passthrough) <= allowed,
            f"the converter lets {sorted(set(passthrough) - allowed)} pass unconverted", construct=f"universal_exception:passthrough {sorted(set(passthrough) - allowed)}")
+    # the converter does nothing but run the operation: no statement of its own before the try (one that raises or returns would skip the operation -
+    # e.g. the close() of a file while the task is being cancelled)
+    body = [s_ for s_ in wr.body if not (isinstance(s_, ast.Expr) and isinstance(s_.value, ast.Constant))]
+    pre = [s_ for s_ in body if not isinstance(s_, ast.Try)]
+    ctx.ob("C13.UNIV", pre[0] if pre else wr, "the converter's wrapper consists of the try around the awaited operation only", not pre and len(body) == 1,
+           f"the backend error converter executes `{src(pre[0])[:50] if pre else ''}` before (or instead of) the operation: an operation can be skipped - a close() that never runs leaves the file open",
+           construct="universal_exception:extra statement")
     ctx.floor("C13.UNIV", 42, "backend operations")
     # PathIOError itself must be an Exception subclass that the dispatcher's handler names
     ctx.ob("C13.UNIV", p.cls("PathIOError"), "PathIOError is an ordinary Exception subclass", p.issub("PathIOError", "Exception"),
@@ -233,4 +240,11 @@ def rule_data(ctx):
     check_detach(ctx, "C13.DATA")
 
 
-RULES = [rule_univ, rule_451, rule_nosuccess, rule_calls, rule_data, rule_close]
+def rule_borrowed_r4(ctx):
+    from .c16 import rule_label
+    ctx.rule("C13.TIMEOUT", "a backend call that exceeds path_timeout fails with TimeoutError (converted to PathIOError -> 451), not with CancelledError (which the abort guard "
+                            "answers 426/226 and the dispatcher re-raises): with_timeout is `wait_for(f(...), <timeout attribute>)` (shared with C16.LABEL)")
+    ctx.borrow(rule_label, {"C16.LABEL": "C13.TIMEOUT"}, only=lambda fn: "with_timeout" in fn)
+
+
+RULES = [rule_univ, rule_451, rule_nosuccess, rule_calls, rule_data, rule_close, rule_borrowed_r4]
